@@ -132,5 +132,22 @@ Balanced == phase = "text" =>
   /\ Cardinality({i \in 1..Len(toks) : toks[i].k = "start"}) = Cardinality({i \in 1..Len(toks) : toks[i].k = "end"})
   /\ Len(toks) = Len(prolog) + Size(ctx) + Cardinality({i \in First(ctx)..LastOf(ctx) : kind[i] \in ElemKinds})
 NoStuck == (phase \in {"ser", "parse"}) => ENABLED Next
-RLaws == RoundTrip /\ Balanced /\ NoStuck
+(* Idempotence (chain of two round trips): serializing the REBUILT tree gives the same token sequence, so
+   parse-xml(serialize(n')) for a node n' that itself came from fn:parse-xml is again the identity.  The
+   configurations "origin-cdata" / "origin-charref" of StaticCfgs bind exactly that: the context node is taken
+   from parse-xml of a source TEXT whose text nodes are written as CDATA sections / with character references. *)
+TokOf(k) == IF k \in ElemKinds THEN [k |-> "start", name |-> NameOf(k)]
+            ELSE IF k \in AttrKinds THEN [k |-> "att", name |-> NameOf(k)]
+            ELSE IF k = "t" THEN [k |-> "text", name |-> ""]
+            ELSE IF k = "c" THEN [k |-> "comment", name |-> ""] ELSE [k |-> "pi", name |-> "p"]
+RECURSIVE SubToks(_, _, _)
+RECURSIVE CatKids(_, _, _)
+SubToks(p, k, i) == IF k[i] \in ElemKinds
+                    THEN <<TokOf(k[i])>> \o CatKids(p, k, {j \in 1..Len(k) : p[j] = i})
+                         \o <<[k |-> "end", name |-> NameOf(k[i])]>>
+                    ELSE <<TokOf(k[i])>>
+CatKids(p, k, S) == IF S = {} THEN <<>>
+                    ELSE LET m == CHOOSE a \in S : \A b \in S : a <= b IN SubToks(p, k, m) \o CatKids(p, k, S \ {m})
+Idempotent == phase = "done" => SubToks(parent2, kind2, 1) = SubSeq(toks, Len(prolog) + 1, Len(toks))
+RLaws == RoundTrip /\ Balanced /\ NoStuck /\ Idempotent
 =============================================================================
